@@ -253,6 +253,10 @@ func resetCoverageRule(p *Prog, r *Report) {
 				r.Note("E7 exempt %s.%s: %s", rp.typ, fp, reason)
 				continue
 			}
+			if ft := fieldTypeByPath(nt, fp); ft != nil && strings.HasPrefix(ft.String(), "sync.") {
+				r.Note("E7 exempt %s.%s: a %s carries no request data (and must not be overwritten while it may be held)", rp.typ, fp, ft.String())
+				continue
+			}
 			n++
 			r.Check("E7", fmt.Sprintf("%s.%s clears %s on every path", rp.typ, rp.method, fp), coveredBy(written, fp), p.Pos(fn.Pos()),
 				"the field is not assigned on some path through the reset method (and its callees): a recycled object can carry this field from the previous request into the next one")
@@ -2251,4 +2255,27 @@ func handlerCannotWriteConn(p *Prog, r *Report) {
 		}
 	}
 	r.Floor("R8", "places that install a timeout response", ninst, 1)
+}
+
+// fieldTypeByPath resolves "a.b.c" through nested struct fields of a named type.
+func fieldTypeByPath(t types.Type, path string) types.Type {
+	cur := t
+	for _, name := range strings.Split(path, ".") {
+		st, ok := cur.Underlying().(*types.Struct)
+		if !ok {
+			return nil
+		}
+		found := false
+		for i := 0; i < st.NumFields(); i++ {
+			if st.Field(i).Name() == name {
+				cur = st.Field(i).Type()
+				found = true
+				break
+			}
+		}
+		if !found {
+			return nil
+		}
+	}
+	return cur
 }
